@@ -18,6 +18,8 @@ def _key_of(row, keyform):
         return row[1] if len(row) > 1 else None
     if keyform == 'compound':        # header ('t','k','j'): key ('k','j')
         return (row[1] if len(row) > 1 else None, row[2] if len(row) > 2 else None)
+    if keyform == 'compound-rev':    # header ('t','k','j'): key ('j','k') - not in header order
+        return (row[2] if len(row) > 2 else None, row[1] if len(row) > 1 else None)
     if keyform == 'none':            # whole row, lexical
         return tuple(row)
     raise ValueError(keyform)
@@ -26,8 +28,8 @@ def _key_of(row, keyform):
 def _mk_rows(sym, n, keyform, dom, ragged, prefix='r'):
     rows = []
     for i in range(n):
-        tag = '%s%d' % (prefix, i)
-        if keyform == 'compound':
+        tag = '%s%d' % (prefix, 9 - i)              # tags decrease with the input position: native row order != input order
+        if keyform in ('compound', 'compound-rev'):
             row = [tag, cell(sym, '%s%d.k' % (prefix, i), dom), cell(sym, '%s%d.j' % (prefix, i), dom)]
             if ragged:
                 ln = sym.choice('%s%d.len' % (prefix, i), 3) + 1   # 1..3 cells
@@ -44,11 +46,11 @@ def _mk_rows(sym, n, keyform, dom, ragged, prefix='r'):
 
 
 def _header(keyform):
-    return {'single': ['t', 'k'], 'compound': ['t', 'k', 'j'], 'none': ['k', 't']}[keyform]
+    return {'single': ['t', 'k'], 'compound': ['t', 'k', 'j'], 'compound-rev': ['t', 'k', 'j'], 'none': ['k', 't']}[keyform]
 
 
 def _keyarg(keyform):
-    return {'single': 'k', 'compound': ('k', 'j'), 'none': None}[keyform]
+    return {'single': 'k', 'compound': ('k', 'j'), 'compound-rev': ('j', 'k'), 'none': None}[keyform]
 
 
 def _verify_sorted(out, inrows, keyform, reverse, what):
@@ -161,14 +163,14 @@ RULE = 'Jobs case-split (key form, key domain, ragged, buffersize, reverse, cach
 def jobs(tier):
     N = 3 if tier == 'quick' else 4
     out = []
-    doms = {'single': ['I', 'O', 'M', 'X'], 'compound': ['Od2', 'O'], 'none': ['I', 'O']}
-    for keyform in ('single', 'compound', 'none'):
+    doms = {'single': ['I', 'O', 'M', 'X'], 'compound': ['Od2', 'O'], 'compound-rev': ['Od2'], 'none': ['I', 'O']}
+    for keyform in ('single', 'compound', 'compound-rev', 'none'):
         for dom in doms[keyform]:
             for ragged in ((False, True) if keyform != 'none' else (False,)):
                 if ragged and dom not in ('I', 'Od2'):
                     continue
                 for bs in [None] + list(range(1, N + 2)):
-                    if keyform == 'compound' and bs == N + 1:
+                    if keyform.startswith('compound') and bs == N + 1:
                         continue
                     for reverse in (False, True):
                         for cache in (True, False):
@@ -178,7 +180,7 @@ def jobs(tier):
                             if tier == 'thorough':
                                 budget = 900
                             Nj = N if dom != 'X' else (3 if bs is None else 2)
-                            if keyform == 'compound':
+                            if keyform.startswith('compound'):
                                 Nj = N - 1        # two symbolic cells per row
                             out.append(dict(
                                 name='sort/%s/%s/%s/bs=%s/rev=%d/cache=%d' % (
